@@ -49,6 +49,30 @@ where
     | some x :: _ => some x
     | none :: xs => firstSome xs
 
+/-- "each 8-bit rule tracks its real-valued counterpart at 8 units per LLR within accumulated table rounding", with the
+constants proved in C04Track: every emitted value is within (d−2)/2 units (approximate min*) resp. d−1 units (A-Min*) of
+8 × the same rule evaluated over the reals (here: `Float`) on the inputs / 8; with partial hard limiting a value of
+magnitude ≥ 100 was promoted to 127, so the real value must reach 100 − bound. -/
+def trackPred (amin hardLimit : Bool) (msgs out : List (Nat × Int)) : Option String :=
+  if msgs.length < 2 then none else
+  let msgsR : List (Nat × Float) := msgs.map (fun m => (m.1, Float.ofInt m.2 / 8))
+  let real := if amin then ArithF.checkAmin Sc.float msgsR else ArithF.checkApprox Sc.float msgsR
+  match real with
+  | none => none
+  | some outR =>
+    let d := Float.ofNat msgs.length
+    let bound : Float := (if amin then d - 1 else (d - 2) / 2) + 1e-6
+    checkPred.firstSome (out.map (fun o =>
+      match outR.find? (fun r => r.1 == o.1) with
+      | none => none
+      | some r =>
+        let R := 8 * r.2
+        let v := Float.ofInt o.2
+        if hardLimit ∧ o.2.natAbs ≥ 100 then
+          (if R.abs + bound < 100 then some s!"hard-limit-promotion-of-a-value-whose-real-counterpart-is-{R}" else none)
+        else if (v - R).abs > bound then some s!"does-not-track-the-real-rule: emitted {o.2}, 8 x real rule = {R}, allowed {bound}"
+        else none))
+
 def handleC04 (inp out : List String) : String :=
   match inp with
   | ["table", ty] =>
@@ -73,7 +97,9 @@ def handleC04 (inp out : List String) : String :=
       let prop := match out with
         | ["panic"] => if msgs.length ≥ 2 then some "panic" else none
         | [o] => (match parsePairs o with
-                  | some ol => checkPred cfg.hardLimit msgs ol
+                  | some ol => (match checkPred cfg.hardLimit msgs ol with
+                                | some e => some e
+                                | none => trackPred amin cfg.hardLimit msgs ol)
                   | none => some "unparsable")
         | _ => some "unparsable"
       verdict mo out prop
